@@ -213,6 +213,73 @@ def flip_function(src, qual):
     return ast.unparse(tree) if changed else None
 
 
+def doc_function(src, qual):
+    """documentation-only edit: (re)write the docstring, annotate every un-annotated parameter and the return value with string annotations
+    (never evaluated): behaviour-preserving"""
+    tree = ast.parse(src)
+    node = _find(tree, qual)
+    if node is None:
+        return None
+    doc = ast.Expr(ast.Constant("Reworded documentation.\n\n    Parameters\n    ----------\n    (see the user guide)\n    "))
+    if node.body and isinstance(node.body[0], ast.Expr) and isinstance(node.body[0].value, ast.Constant) and isinstance(node.body[0].value.value, str):
+        node.body[0] = doc
+    else:
+        node.body.insert(0, doc)
+    for a in node.args.posonlyargs + node.args.args + node.args.kwonlyargs:
+        if a.annotation is None and a.arg not in ("self", "cls"):
+            a.annotation = ast.Constant("Any")
+    if node.returns is None and node.name != "__init__":
+        node.returns = ast.Constant("Any")
+    ast.fix_missing_locations(tree)
+    return ast.unparse(tree)
+
+
+def log_function(src, qual):
+    """add a debug log line at the entry of the function (`logging.getLogger(__name__).debug(...)`, function-local import): no effect on any
+    value the library computes"""
+    tree = ast.parse(src)
+    node = _find(tree, qual)
+    if node is None:
+        return None
+    at = 1 if (node.body and isinstance(node.body[0], ast.Expr) and isinstance(node.body[0].value, ast.Constant) and isinstance(node.body[0].value.value, str)) else 0
+    # generators / context managers keep their shape: the log line is an ordinary statement
+    stmts = ast.parse("import logging\nlogging.getLogger(__name__).debug('entering %s', %r)" % ("%s", qual)).body
+    node.body[at:at] = stmts
+    ast.fix_missing_locations(tree)
+    return ast.unparse(tree)
+
+
+def invert_function(src, qual):
+    """exchange the branches of every two-armed `if` / conditional expression and negate its test (`if c: A else: B` -> `if not c: B else: A`,
+    with `==`/`!=`, `is`/`is not`, `in`/`not in`, `<`/`>=` ... negated in place, `not x` un-negated): behaviour-preserving"""
+    tree = ast.parse(src)
+    node = _find(tree, qual)
+    if node is None:
+        return None
+    NEG = {ast.Eq: ast.NotEq, ast.NotEq: ast.Eq, ast.Is: ast.IsNot, ast.IsNot: ast.Is, ast.In: ast.NotIn, ast.NotIn: ast.In}
+
+    def negate(t):
+        if isinstance(t, ast.UnaryOp) and isinstance(t.op, ast.Not):
+            return t.operand
+        if isinstance(t, ast.Compare) and len(t.ops) == 1 and type(t.ops[0]) in NEG:
+            return ast.Compare(left=t.left, ops=[NEG[type(t.ops[0])]()], comparators=t.comparators)
+        return ast.UnaryOp(op=ast.Not(), operand=t)
+    changed = False
+    for n in ast.walk(node):
+        if isinstance(n, ast.If) and n.orelse and not (len(n.orelse) == 1 and isinstance(n.orelse[0], ast.If)):
+            n.test = negate(n.test)
+            n.body, n.orelse = n.orelse, n.body
+            changed = True
+        elif isinstance(n, ast.IfExp):
+            n.test = negate(n.test)
+            n.body, n.orelse = n.orelse, n.body
+            changed = True
+    if not changed:
+        return None
+    ast.fix_missing_locations(tree)
+    return ast.unparse(tree)
+
+
 def mutants_of(src, qual, limit=12):
     """Behaviour-CHANGING single-point mutants of one function (statement deleted, comparison flipped, arithmetic operator swapped,
     boolean operator swapped, constant perturbed).  Used only to harden the analysers: a mutant may legitimately be ok / violation /
@@ -313,7 +380,7 @@ def one(args):
     tmp = None
     try:
         src = open(os.path.join(repo, rel)).read()
-        new = {"temp": temp_function, "inline": inline_function, "swap": swap_function, "flip": flip_function}.get(mode, rename_function)(src, qual)
+        new = {"temp": temp_function, "inline": inline_function, "swap": swap_function, "flip": flip_function, "doc": doc_function, "log": log_function, "invert": invert_function}.get(mode, rename_function)(src, qual)
         if new is None:
             return qual, "skipped", ""
         try:
